@@ -306,11 +306,13 @@ fn wrap_cw20() -> Box<dyn Contract<Empty>> {
 pub fn deploy(cw20: bool, fees: (u128, u128, u128), funds: [u128; 5]) -> Result<VaultWorld, String> {
     let people: Vec<&str> = vec![FOWNER, USERS[0], USERS[1], USERS[2]];
     let mut app: App = AppBuilder::new().with_bank(BankKeeper::new()).build(|router, _api, storage| {
-        if !cw20 {
-            for (i, a) in people.iter().enumerate() {
-                let amt = funds[i] + if i == 0 { funds[4] } else { 0 };
-                // every funded account also holds a token the vault has nothing to do with (mis-attached funds)
-                if amt > 0 { router.bank.init_balance(storage, &Addr::unchecked(*a), vec![coin(u128::MAX / 8, "ujunk"), coin(amt, DENOM)]).unwrap(); }
+        for (i, a) in people.iter().enumerate() {
+            let amt = funds[i] + if i == 0 { funds[4] } else { 0 };
+            // every funded account also holds a token the vault has nothing to do with (mis-attached funds)
+            if amt > 0 {
+                let mut coins = vec![coin(u128::MAX / 8, "ujunk")];
+                if !cw20 { coins.push(coin(amt, DENOM)); }
+                router.bank.init_balance(storage, &Addr::unchecked(*a), coins).unwrap();
             }
         }
     });
@@ -482,7 +484,9 @@ impl VaultWorld {
             }
             Op::Withdraw { u, amount } => self.app.execute_contract(self.addr(*u), self.lp.clone(),
                 &Cw20ExecuteMsg::Send { contract: vault_addr.to_string(), amount: *amount, msg: to_json_binary(&vmsg::Cw20HookMsg::Withdraw {})? }, &[]),
-            Op::WithdrawDirect { u } => self.app.execute_contract(self.addr(*u), vault_addr, &vmsg::ExecuteMsg::Withdraw {}, &[]),
+            // the token-factory entry: odd account indices attach coins of a denom that is not the (cw20) share token
+            Op::WithdrawDirect { u } => { let f = if *u % 2 == 1 { vec![coin(100 + 37 * *u as u128, "ujunk")] } else { vec![] };
+                                          self.app.execute_contract(self.addr(*u), vault_addr, &vmsg::ExecuteMsg::Withdraw {}, &f) }
             Op::Collect { u } => self.app.execute_contract(self.addr(*u), vault_addr, &vmsg::ExecuteMsg::CollectProtocolFees {}, &[]),
             Op::Update { u, via_factory, p } => {
                 let params = self.upd_params(p);
